@@ -1,0 +1,41 @@
+//go:build verif
+
+package xtea
+
+// Contracts for govc (/verif). Comments only. C12 (part), as for tea.
+
+//@ func initCipher
+//@ props C12
+//@ nonnil c
+//@ requires len(key) >= 16
+//@ modifies c.table
+//@ loop 1 invariant 0 <= i && i <= 4
+//@ loop 2 invariant 0 <= i && i <= 64 && i % 2 == 0
+
+//@ func NewCipher
+//@ props C12
+//@ ensures iff(result1 == nil, len(key) == 16) && iff(result0 != nil, result1 == nil)
+//@ canary ensures result1 != nil
+
+//@ func blockToUint32
+//@ props C12
+//@ may_panic_when len(src) < 8
+
+//@ func uint32ToBlock
+//@ props C12
+//@ may_panic_when len(dst) < 8
+//@ modifies dst[0:8]
+
+//@ func encryptBlock
+//@ props C12
+//@ nonnil c
+//@ may_panic_when len(src) < 8 || len(dst) < 8
+//@ modifies dst[0:8]
+//@ loop 1 invariant 0 <= i && i <= 64 && i % 2 == 0
+
+//@ func decryptBlock
+//@ props C12
+//@ nonnil c
+//@ may_panic_when len(src) < 8 || len(dst) < 8
+//@ modifies dst[0:8]
+//@ loop 1 invariant 0 <= i && i <= 64 && i % 2 == 0
